@@ -88,6 +88,14 @@ Definition spec_saved (w : N) (n : nat) (pat : list Z) (data : list N) : option 
        | _ => resolve_all pat (unpack w n data)
        end.
 
+(* the width of the index array of a saved section (Anvil "block_states" / "biomes"): none for a
+   single-entry palette, else ceil(log2(palette length)), for block states at least 4 *)
+Definition save_width (k : kind) (plen : Z) : Z :=
+  match k with
+  | KStates => if plen <=? 1 then 0 else Z.max 4 (Z.log2_up plen)
+  | KBiomes => Z.log2_up plen
+  end.
+
 (* ====================== model of the Go code ====================== *)
 
 Record cfg := mkCfg { ckind : kind; gbits : Z }.
@@ -285,10 +293,49 @@ Definition pc_read (fuel : nat) (c : pc) : dec (pc * N) :=
     | (_, _) => Fail eFix
     end).
 
-(* ---------- construction from save data (the code after the three fix: commits) ---------- *)
+(* ---------- construction from save data (the code after the fix: commits up to 6364be8) ---------- *)
 
 (* withCap: capacity max(len(pat), size) *)
 Definition with_cap (pat : list Z) (size : Z) : Z := Z.max (zlen pat) size.
+
+(* bits.Len(uint(x)) for x >= 0 *)
+Definition bit_len (x : Z) : Z := if x <=? 0 then 0 else Z.log2 x + 1.
+
+(* the loop of resolveIndirect: direct.Set(i, int(pat[idx.Get(i)])) *)
+Fixpoint resolve_loop (idx : bstore) (pat : list Z) (direct : bstore) (is : list Z) : res bstore :=
+  match is with
+  | [] => ROk direct
+  | i :: t =>
+      match snd (bs_get idx i) with
+      | ORet k =>
+          match (if k <? 0 then None else nth_error pat (Z.to_nat k)) with
+          | None => RPanic pRt                                   (* pat[k]: index out of range *)
+          | Some v =>
+              match bs_set direct i v with
+              | (d', OUnit) => resolve_loop idx pat d' t
+              | (_, OPanic w) => RPanic w
+              | (_, _) => RPanic pRt
+              end
+          end
+      | OPanic w => RPanic w
+      | _ => RPanic pRt
+      end
+  end.
+
+(* resolveIndirect(length, data, pat, directBits): Raw() of the direct storage *)
+Definition resolve_indirect (length : Z) (data : list N) (pat : list Z) (dbits : Z) : res (list N) :=
+  match bs_new (bit_len (zlen pat - 1)) length (Some data) with
+  | RPanic w => RPanic w
+  | ROk idx =>
+      match bs_new dbits length None with
+      | RPanic w => RPanic w
+      | ROk d0 =>
+          match resolve_loop idx pat d0 (positions length) with
+          | RPanic w => RPanic w
+          | ROk d => ROk (C11.data d)
+          end
+      end
+  end.
 
 Definition infer_bits (cf : cfg) (length : Z) (longs : Z) (plen : Z) : option Z :=
   match calc_bits length longs with
@@ -303,25 +350,36 @@ Definition infer_bits (cf : cfg) (length : Z) (longs : Z) (plen : Z) : option Z 
       end
   end.
 
+(* the palette, the bits field and the longs handed to NewBitStorage; the global branch resolves the
+   indices of a palette wider than the widest indirect palette (256 block states, 8 biomes) *)
+Definition wide_limit (k : kind) : Z := match k with KStates => 256 | KBiomes => 8 end.
+
 Definition pc_with_data (cf : cfg) (length : Z) (data : list N) (pat : list Z) : res pc :=
   match infer_bits cf length (zlen data) (zlen pat) with
   | None => RPanic pRt
   | Some n0 =>
-      let built : option (Z * pal) :=
-        if n0 =? 0 then match pat with v :: _ => Some (0, PSingle v) | [] => None end
+      let global : res (Z * pal * list N) :=
+        if wide_limit (ckind cf) <? zlen pat then
+          match resolve_indirect length data pat (gbits cf) with
+          | ROk data' => ROk (n0, PGlobal, data')
+          | RPanic w => RPanic w
+          end
+        else ROk (n0, PGlobal, data) in
+      let built : res (Z * pal * list N) :=
+        if n0 =? 0 then match pat with v :: _ => ROk (0, PSingle v, data) | [] => RPanic pRt end
         else match ckind cf with
              | KStates =>
-                 if in_range 1 4 n0 then Some (4, PLinear pat (with_cap pat 16) 4)
-                 else if in_range 5 8 n0 then Some (n0, PHash pat (with_cap pat (2 ^ n0)) n0)
-                 else Some (n0, PGlobal)
+                 if in_range 1 4 n0 then ROk (4, PLinear pat (with_cap pat 16) 4, data)
+                 else if in_range 5 8 n0 then ROk (n0, PHash pat (with_cap pat (2 ^ n0)) n0, data)
+                 else global
              | KBiomes =>
-                 if in_range 1 3 n0 then Some (n0, PLinear pat (with_cap pat (2 ^ n0)) n0)
-                 else Some (n0, PGlobal)
+                 if in_range 1 3 n0 then ROk (n0, PLinear pat (with_cap pat (2 ^ n0)) n0, data)
+                 else global
              end in
       match built with
-      | None => RPanic pRt                                   (* pat[0] of an empty palette *)
-      | Some (n, p) =>
-          match bs_new (cfg_bits cf n) length (Some data) with
+      | RPanic w => RPanic w                                   (* pat[0] of an empty palette, resolveIndirect *)
+      | ROk (n, p, data1) =>
+          match bs_new (cfg_bits cf n) length (Some data1) with
           | ROk d => ROk (mkPC n cf p d)
           | RPanic w => RPanic w
           end
